@@ -35,7 +35,7 @@ T2 = {
     "unwrap|mlpg_adjust::mask::Mask::fill::{closure#0}|Option::expect|0":
         (r"next\(", "`masked` is the MLPG solution whose length is the number of true mask entries (parameters were filtered by the same mask)"),
     "unwrap|model::Models::<'a>::gv::{closure#0}|Option::unwrap|0":
-        (r"gv_model", "reached only when stream_metadata.use_gv; the loader builds gv_model = Some exactly when use_gv (parse_data_section)"),
+        (r"gv_model", "reached only when stream_metadata.use_gv; the loader builds gv_model = Some exactly when use_gv (parse_data_section)", [r"^parent true: .*stream_metadata\(self\.voices, stream_index\)\.use_gv$"]),
     "panic|model::voice::model::Model::get_parameter|panic|0":
         (r"index not found", "voice-format fact for loader-built voices: trees exist for states 2..2+nstate and convert_tree produces in-range node indices ending in leaves"),
     "index|model::voice::window::Window::iter_rev|Vec::index|0":
@@ -442,11 +442,12 @@ def r6(ctx, p, cg, K):
         ent = T2.get(s.key)
         if ent:
             used.add(s.key)
-            rx, reason = ent
-            if re.search(rx, s.shape() + " " + str(s.extra.get("msg", ""))):
+            reason = ent[1]
+            okm, whynot = ledger.t2_match(ent, s, " " + str(s.extra.get("msg", "")))
+            if okm:
                 ctx.ok("C01-R6", "T2 %s  %s" % (s.key, s.detail[:100]), s.loc(), reason)
             else:
-                ctx.fail("C01-R6", s.fn, "%s %s" % (s.kind, s.api), "audited site changed shape: expected /%s/ in `%s`" % (rx, s.shape()[:200]), s.loc())
+                ctx.fail("C01-R6", s.fn, "%s %s" % (s.kind, s.api), "%s (audit: %s)" % (whynot, reason), s.loc())
             continue
         if s.key == "panic|%snew|panic|2" % SG or (s.fn == SG + "new" and s.kind == "panic" and "odd" in s.detail):
             odd_lpf(ctx, p, s)
